@@ -10,7 +10,7 @@ pub const BOUNDARY_NUMBERS: &[&str] = &[
 
 pub const FRAGMENTS: &[&str] = &[
     "echo", "if", "then", "elif", "else", "fi", "for", "in", "do", "done", "case", "esac", "while", "until", "function", "select", "time", "coproc", "!", "{", "}", "(", ")", "((", "))", "[[", "]]", "x=1", "a b", "$x", "${x}",
-    "${x:-y}", "${x:=", "${x//a/b}", "${x:1:2}", "${x@Q}", "${!x}", "${#x}", "${x[@]}", "${x[", "$(", "$((", "`", "\\`", "'", "\"", "\\", "\\\n", "\n", ";", ";;", ";&", ";;&", "&&", "||", "|", "|&", "&", "<<EOF\n", "<<-E\n", "EOF\n", "E\n",
+    "${x:-y}", "${x:=", "${x//a/b}", "${x:1:2}", "${x@Q}", "${!x}", "${#x}", "${x[@]}", "${x[", "$(", "$((", "`", "\\`", "'", "\"", "\\", "\\\n", "\n", ";", ";;", ";&", ";;&", "&&", "||", "|", "|&", "&", "<<EOF\n", "<<-E\n", "<<\"\"", "<<''", "EOF\n", "E\n",
     "<<<", ">", ">>", ">|", "<>", "2>&1", ">&-", "<(", ">(", "#c", " ", "  ", "é", "€", "日本", "\u{1F600}", "~", "~/x", "~+", "*", "?", "[a-z]", "[!", "[[:alpha:]]", "@(", "!(", "+(a|b)", "-n", "--", "=", "==", "=~", "$'a\\n'",
     "$'\\x", "$'\\u{", "$\"q\"", "f()", "$", "${", "${#", "$((1+", "a\\", "{a,b}", "{1..3}", "{a..z..2}", "{1..", "x[1]=", "x=(", "x+=(", "[k]=v", "1>", "99>", "&>", "&>>", "\t", "\r", "\u{1}", "\u{7f}", "\u{0}",
 ];
